@@ -54,7 +54,7 @@ func parserEntryPoints(p *Prog) []*ssa.Function {
 }
 
 func checkC18(p *Prog, rp *Report) {
-	rp.Explanation = "C18-GLOBALS: no function of version, dependency, control, changelog, hashio, internal stores to a package-level variable or updates a map reachable from one (outside package initialisers), so calls share no mutable state. C18-TERM: every loop in the parser packages is classified as (i) a range/counted loop whose index moves by a positive constant towards a loop-invariant bound, (ii) a reader loop every iteration of which performs a read whose failure leaves the loop, or (iii) a cursor loop covered by the transition-system explorations of the dependency parser (C04-TOTAL) and the version comparator (C01-RUN), in which every run between two input symbols is finite; recursion only descends struct nesting or the two-step Arch.Is swap. C18-BOUNDS: every index and slice expression reachable from the parser entry points is proven in range by one of: range induction variable, constant index under a dominating length guard, Split result [0], bounds derived from Index/LastIndex on the found branch, [1:] under a dominating HasPrefix, fixed arrays, or the cursor explorations (no panic state). C18-NOPANIC: no panic/log.Fatal/os.Exit and no unchecked type assertion reachable from the entry points. C18-XOR: every exported function of the four packages that returns (value, error) returns nil / the zero value on every return where the error can be non-nil."
+	rp.Explanation = "C18-GLOBALS: no function of version, dependency, control, changelog, hashio, internal stores to a package-level variable or updates a map reachable from one (outside package initialisers), so calls share no mutable state. C18-TERM: every loop in the parser packages is classified as (i) a range/counted loop whose index moves by a positive constant towards a loop-invariant bound, (ii) a reader loop every iteration of which performs a read whose failure leaves the loop, or (iii) a cursor loop covered by the transition-system explorations of the dependency parser (C04-TOTAL) and the version comparator (C01-RUN), in which every run between two input symbols is finite; recursion only descends struct nesting or the two-step Arch.Is swap. C18-BOUNDS: every index and slice expression reachable from the parser entry points is proven in range by one of: range induction variable, constant index under a dominating length guard, Split result [0], bounds derived from Index/LastIndex on the found branch, [1:] under a dominating HasPrefix, fixed arrays, or the cursor explorations (no panic state). C18-NOPANIC: no panic/log.Fatal/os.Exit and no unchecked type assertion reachable from the entry points. C18-DET: every range over a map reachable from the parser entry points is order independent (unique-match idiom or element-keyed updates only). C18-XOR: every exported function of the four packages that returns (value, error) returns nil / the zero value on every return where the error can be non-nil."
 	rp.NotDecided = "data races and hangs inside the standard library and third-party code; behaviour of the reflection walkers on caller-supplied struct types; memory exhaustion on huge inputs."
 	rp.Trusted = []string{"go/types, go/ssa", "contracts of strings.Split (>= 1 element), Index/LastIndex (-1 or a valid position), HasPrefix", "C01-RUN and C04-TOTAL explorations"}
 
@@ -152,6 +152,23 @@ func checkC18(p *Prog, rp *Report) {
 	c18Term(p, rp, reachList, cursorFns, parserOK, cmpOK, pm, prodRes, why)
 	t1 := time.Now()
 	c18Bounds(p, rp, reachList, cursorFns, parserOK, cmpOK)
+	// C18-DET: no result of the parsers depends on the iteration order of a map
+	det := rp.Rule("C18-DET", "no parser result depends on map iteration order", 1)
+	nloops := 0
+	for _, fn := range reachList {
+		for _, ml := range mapOrderLoops(fn) {
+			nloops++
+			key := fname(fn) + ":range-over-map"
+			if ml.OK {
+				det.ok(key, p.Pos(ml.Range.Pos()), "iteration order cannot influence the result (unique-match idiom or element-keyed updates only)")
+			} else {
+				det.bad(key, p.Pos(ml.Range.Pos()), "the same input can give different results from call to call: "+ml.Why, nil)
+			}
+		}
+	}
+	if nloops == 0 {
+		det.ok("(no range over a map)", "", fmt.Sprintf("none of the %d functions reachable from the parser entry points ranges over a map", len(reachList)))
+	}
 	if os.Getenv("GDSA_DEBUG") != "" {
 		fmt.Fprintf(os.Stderr, "term %v bounds %v\n", t1.Sub(t0), time.Since(t1))
 	}
